@@ -19,7 +19,7 @@
  *             libast's source comment says "FNV-1a 32-bit init" and the code is the
  *             xor-then-multiply order, i.e. FNV-1a (hash_32a.c on Noll's page, which also
  *             shows the gcc shift-add form of the multiply).  Both orders are given
- *             below; the units compare with FNV-1a and show FNV-1 is NOT what is computed.
+ *             below; the units compare with FNV-1a.
  *
  * libast's documented deviations from the publications (header comments of the functions):
  *   * lookup2's initial a = b = 0x9e3779b9 ("the golden ratio; an arbitrary value") is
@@ -148,10 +148,31 @@ static ref_ub4 ref_one_at_a_time(const ref_ub1 *key, ref_ub4 len, ref_ub4 seed)
     return hash;
 }
 
-/* [FNV] 32-bit, multiply written out as a multiply */
+/* [FNV] 32-bit.  Noll's reference code (hash_32a.c / hash_32.c) gives the multiplication by the FNV
+ * prime in two forms: `hval *= FNV_32_PRIME;` and, "#else" for gcc,
+ * `hval += (hval<<1) + (hval<<4) + (hval<<7) + (hval<<8) + (hval<<24);`
+ * (16777619 = 2^24 + 2^8 + 2^7 + 2^4 + 2^1 + 1).  REF_FNV_MUL is the second form; that it IS the
+ * multiplication, for every 32-bit value, is the lemma unit C18.equiv.fnv.prime_lemma.  The enumeration
+ * units compare with ref_fnv1a (shift-add step): K chained 32-bit multiplications against K chained
+ * shift-add sums is out of reach for z3, cvc5 and the SAT solvers already at K = 5, while "one step
+ * is the multiplication" (lemma) + "same steps in the same order" (enumeration) is the same statement.
+ * ref_fnv1a_mul / ref_fnv1_mul (multiply written as a multiply) are what the native checks run
+ * against the published test vectors ("" -> 0x811c9dc5, "a" -> 0xe40c292c, "foobar" -> 0xbf9cf968
+ * for FNV-1a; "a" -> 0x050c5d7e, "foobar" -> 0x31f0b262 for FNV-1). */
 #define REF_FNV32_PRIME  16777619U
 #define REF_FNV32_BASIS  2166136261U
+#define REF_FNV_MUL(h)   ((h) + ((h) << 1) + ((h) << 4) + ((h) << 7) + ((h) << 8) + ((h) << 24))
 static ref_ub4 ref_fnv1a(const ref_ub1 *key, ref_ub4 len, ref_ub4 seed)
+{
+    ref_ub4 h = (seed ? seed : REF_FNV32_BASIS), i;
+
+    for (i = 0; i < len; i++) {
+        h ^= (ref_ub4) key[i];
+        h = REF_FNV_MUL(h);
+    }
+    return h;
+}
+static ref_ub4 ref_fnv1a_mul(const ref_ub1 *key, ref_ub4 len, ref_ub4 seed)
 {
     ref_ub4 h = (seed ? seed : REF_FNV32_BASIS), i;
 
@@ -161,7 +182,8 @@ static ref_ub4 ref_fnv1a(const ref_ub1 *key, ref_ub4 len, ref_ub4 seed)
     }
     return h;
 }
-static ref_ub4 ref_fnv1(const ref_ub1 *key, ref_ub4 len, ref_ub4 seed)
+/* FNV-1 (multiply, then xor): NOT what libast computes; kept for the native demonstration */
+static ref_ub4 ref_fnv1_mul(const ref_ub1 *key, ref_ub4 len, ref_ub4 seed)
 {
     ref_ub4 h = (seed ? seed : REF_FNV32_BASIS), i;
 
